@@ -75,7 +75,7 @@ CHECKS = {
          'hszinc\'s outcome on each (grid / ZincParseException(line, col) / other / timeout) is judged by TLC with the reader machine: structurally broken text (reason in ZincRead.Structural) must be rejected, '
          'accepted text must be read as the machine reads it, the reported position must lie within the text; seeded random strings, splices and scalar tokens too.',
     ref='DESIGN.md 5/C09', technique='TLA+ mutation operators over ZincWrite documents enumerated by TLC; reader machine ZincRead as the oracle in TLC trace judgement',
-    note='non-structural rejections of the machine (calendar ranges, cell counts, unknown tokens, ambiguous escapes) leave hszinc either outcome; 5 s budget per call; a call during which the budget ran out counts as a time-out whatever exception comes back'),
+    note='non-structural rejections of the machine (calendar ranges, cell counts, unknown tokens, ambiguous escapes) leave hszinc either outcome; 5 s CPU-time budget per call (2 min wall-clock backstop); a call during which the budget ran out counts as a time-out whatever exception comes back'),
 
  'C10': dict(
     text='spec/Gate.tla: the grid as a gate machine (version, given, stored kinds) with Accepts(version, kind) decided through Version.tla\'s nearest official version; TLC enumerates every declared '
